@@ -23,6 +23,27 @@ Theorem C10_filter_keeps_crossing_atoms : forall mol r u v,
 Proof. exact allowed_of_crossing. Qed.
 Print Assumptions C10_filter_keeps_crossing_atoms.
 
+(* the property as stated: every residue-graph edge is realised by a bond (exhibited) or
+   reported as missing -- exactly one of the two *)
+Theorem C10_realised_or_reported : forall mol rs res_edges ea eb ra rb,
+  find_res rs ea = Some ra -> find_res rs eb = Some rb ->
+  ResGraphInv mol ra -> ResGraphInv mol rb -> (forall x, In x (r_nodes ra) -> ~ In x (r_nodes rb)) ->
+  In (ea, eb) res_edges ->
+  ((exists u v, In u (r_nodes ra) /\ In v (r_nodes rb) /\ adjacent mol u v) /\ ~ In (ea, eb) (missing mol rs res_edges)) \/
+  (In (ea, eb) (missing mol rs res_edges) /\ forall u v, In u (r_nodes ra) -> In v (r_nodes rb) -> ~ adjacent mol u v).
+Proof. exact realised_or_reported. Qed.
+Print Assumptions C10_realised_or_reported.
+
+(* the records are a sub-sequence of the residue-graph edges in their order, at most one per
+   edge, whatever the number of edges (no cap), and additive over the edge list *)
+Theorem C10_reports_follow_edges : forall mol rs res_edges,
+  (forall e, In e (missing mol rs res_edges) -> In e res_edges) /\
+  (NoDup res_edges -> NoDup (missing mol rs res_edges)) /\
+  (List.length (missing mol rs res_edges) <= List.length res_edges)%nat /\
+  (forall a b, missing mol rs (a ++ b) = missing mol rs a ++ missing mol rs b)%list.
+Proof. exact missing_shape. Qed.
+Print Assumptions C10_reports_follow_edges.
+
 Example C10_nonvacuous :
   let rs := [{| r_key := 0; r_nodes := [0; 1]; r_edges := [(0, 1)] |}; {| r_key := 1; r_nodes := [2]; r_edges := [] |};
              {| r_key := 2; r_nodes := [3]; r_edges := [] |}] in
